@@ -266,10 +266,15 @@ func scnAbsurd(kv map[string]string) bool {
 	if !ok {
 		return false
 	}
-	// seven digits and more: around and beyond MaxScenarioRequests = 1048576 (below it the child builds up to 1 Mi requests)
 	for _, r := range reqs {
-		if hasLongDigitRun(r, 6) {
+		if hasLongDigitRun(r, 7) {
 			return true
+		}
+		// seven digits: beyond MaxScenarioRequests = 1048576?
+		for i := 0; i+7 <= len(r); i++ {
+			if n, err := strconv.Atoi(r[i : i+7]); err == nil && n > 1048576 && !strings.ContainsAny(r[i:i+7], "+- ") {
+				return true
+			}
 		}
 	}
 	return false
@@ -328,15 +333,6 @@ func r6BoundCases(r *rand.Rand, tier string) []string {
 				hs = append(hs, hx(q))
 			}
 			out = append(out, fmt.Sprintf("k=scn kind=%s fmt=%s defs=r1 reqs=%s", kind, format, strings.Join(hs, ";")))
-		}
-		// around the bound: the requests built so far count too
-		nearK := r.Intn(3) * 2
-		for _, reqs := range [][]string{{"r1(1048576)"}, {"r1(1048576)", "r1"}, {"r1(1048575)", "r1(1, 7)", "r1"}, {"r1(3)", "r1(1048574)"}, {"r1(1048570)", "sleep(5)", "r1(6)"}, {"r1(1048570)", "r1(7)"}}[nearK : nearK+2] {
-			var hs []string
-			for _, q := range reqs {
-				hs = append(hs, hx(q))
-			}
-			out = append(out, fmt.Sprintf("k=scn kind=%s fmt=%s defs=r1 reqs=%s", []string{"http", "grpc"}[r.Intn(2)], []string{"yaml", "hcl"}[r.Intn(2)], strings.Join(hs, ";")))
 		}
 		for _, w := range []string{"16777217,1", "4611686018427387904,3", "9223372036854775807,9223372036854775807,2", "16777216,1", "1099511627776,1099511627776", "33554432,1,1", "-,99999999999", "50000000,3,7"} {
 			out = append(out, fmt.Sprintf("k=scnw kind=%s fmt=%s w=%s", []string{"http", "grpc"}[r.Intn(2)], []string{"yaml", "hcl"}[r.Intn(2)], w))
